@@ -294,7 +294,16 @@ def h_cat_getitem(ctx, mod, q, fn, c, kind):
                     reach = False
             if reach and step not in (None, 1):
                 probs.append("a slice with step %r reaches the contiguous-sub-list construction" % (step,))
-        if not any(lab == "T" and ast.unparse(st.test) in ("not %s" % bx, "len(%s) == 0" % bx) for st, lab, how in guards):
+        def inside_nonempty_branch():
+            for st in ast.walk(fn):
+                if isinstance(st, ast.If):
+                    t = ast.unparse(st.test)
+                    if t in (bx, "len(%s) != 0" % bx, "len(%s) > 0" % bx) and any(c is x for b in st.body for x in ast.walk(b)):
+                        return True
+                    if t in ("not %s" % bx, "len(%s) == 0" % bx) and any(c is x for b in st.orelse for x in ast.walk(b)):
+                        return True
+            return False
+        if not any(lab == "T" and ast.unparse(st.test) in ("not %s" % bx, "len(%s) == 0" % bx) for st, lab, how in guards) and not inside_nonempty_branch():
             probs.append("the empty selection is not handled before indexing %s[0]" % bx)
         return probs, "contiguous-sub-list"
     # dagger pattern: (X.cod, X.dom, [b[::-1] for b in X.boxes[::-1]])
